@@ -209,8 +209,15 @@ func symMultiStatus(maxResp int) *MultiStatus {
 			if vrt.Choose("has-description", 2) == 1 {
 				resp.ResponseDescription = "because"
 			}
-		} else {
-			nps := vrt.Choose("npropstats", 3)
+		}
+		{
+			// a server may send a response-level status together with
+			// propstats (at most one then, to bound the combinations)
+			maxps := 3
+			if resp.Status != nil {
+				maxps = 2
+			}
+			nps := vrt.Choose("npropstats", maxps)
 			for k := 0; k < nps; k++ {
 				ps := PropStat{Status: Status{Code: vrt.Int("propstat-status")}}
 				if k == 0 {
@@ -304,6 +311,11 @@ func VerifH_C14_MultiStatus() {
 			}
 			if !respFailed && len(src.PropStats) == 0 && he != nil {
 				vrt.Assert(he.Code == 404 && IsNotFound(derr), "a missing property is a 404")
+			}
+			if respFailed && he != nil {
+				vrt.Assert(he.Code == src.Status.Code, "a property of a failed response fails with that response's status code")
+				var ee *Error
+				vrt.Assert(errors.As(derr, &ee) == (src.Error != nil), "a property of a failed response fails with the response's DAV:error element")
 			}
 		}
 	}
